@@ -26,6 +26,8 @@ func codecStep(fn, extra string, fieldIdx map[string]int) string {
 		return ".name"
 	case "StringTxt":
 		return ".txt"
+	case "DataNsec":
+		return ".nsec"
 	case "StringOctet":
 		return ".blobRest"
 	case "StringHex", "StringBase64", "StringBase32", "StringAny":
